@@ -26,7 +26,7 @@ def loop(i):
             p = q.get_nowait()
         except queue.Empty:
             return
-        m = dict(id=p[0], props=p[1], file=p[2], old=p[3], new=p[4], expect=[""], tier=os.environ.get("VERIF_TIER", "quick"))
+        m = dict(id=p[0], props=p[1], file=p[2], old=p[3], new=p[4], expect=[""], tier=os.environ.get("VERIF_TIER", "quick"), count=(p[5] if len(p) > 5 else open(os.path.join(w.repo, p[2])).read().count(p[3])))
         out[p[0]] = w.run(m)
 ths = [threading.Thread(target=loop, args=(i,)) for i in range(jobs)]
 [t.start() for t in ths]
